@@ -335,6 +335,9 @@ class DiscriminatedUnionUnpackerBuilder(AbstractUnpackerBuilder):
     def _get_variants_map(self, spec: ValueSpec) -> str:
         variants_attr = self._get_variants_attr(spec)
         if spec.builder.is_nailed:
+            # the class is referred to through its module, which the types
+            # of its fields do not necessarily mention
+            spec.builder.add_type_modules(spec.builder.cls)
             typ_name = spec.builder.get_type_name_identifier(spec.builder.cls)
             return f"{typ_name}.{variants_attr}"
         else:
